@@ -652,6 +652,13 @@ class MQTTProtocol(MQTTBaseProtocol):
             del self.factory.windowPubRelease[self.addr][k]
             request.deferred.errback(reason)
 
+        # messages still waiting for a free window slot belong to the session too
+        queue = self.factory.queuePublishTx[self.addr]
+        while queue:
+            request = queue.popleft()
+            if request.msgId:   # QoS 0 deferreds have already been fired
+                request.deferred.errback(reason)
+
 
     # -------------------------------------
     # Helper methods (publisher/subscriber)
